@@ -163,8 +163,12 @@ def _extract_omega_delta_phi(
             ):
                 raise ValueError(f"Input {name} has non-zero imaginary part.")
 
-            pchip = PCHIP1D(t_grid, signal.real)
-            data_mid[:, q_pos] = pchip(t_mid)
+            if t_grid.numel() < 2:
+                # A single sample (1 ns sequence): nothing to interpolate
+                data_mid[:, q_pos] = signal.real[0]
+            else:
+                pchip = PCHIP1D(t_grid, signal.real)
+                data_mid[:, q_pos] = pchip(t_mid)
             if name == "amp":
                 # Every step whose midpoint lies after the last sample is
                 # extrapolated and may undershoot (several of them when dt < 1)
